@@ -102,6 +102,13 @@ ChainSheet(f, dcs, last) == [i \in 1..Len(dcs) |->
                                St(dcs[i], DeclLvl(f, dcs[i]), IF i < Len(dcs) THEN i + 1 ELSE last)]
 SDoc(f, sh) == [fmt |-> f, body |-> <<StyP(1, 3), Plain>>, hdr |-> 0, ftr |-> 0, sheet |-> sh]
 
+\* ---- family L: list trees ---------------------------------------------------
+LIh(l, num, how) == [k |-> "LI", ch |-> <<R("r", <<"t">>)>>, lvl |-> l, how |-> how, num |-> num, sty |-> 0, tb |-> NoTbl]
+ShapesL(f) == {LIh(l, "bullet", "") : l \in 0..3}
+              \cup {LIh(0, "bullet", "emp"), LIh(2, "bullet", "emp"), LIh(0, "decimalR", ""), LIh(1, "decimal", "")}
+              \cup (IF f = "odt" THEN {LIh(0, "bullet", "cont"), LIh(1, "bullet", "cont"), LIh(2, "bullet", "wrapp"), LIh(3, "bullet", "wrapp")}
+                    ELSE {})
+
 \* Init written with quantifiers: TLC enumerates the function sets directly instead of
 \* building (sorting, de-duplicating) one big set of documents first
 MCInit ==
@@ -110,6 +117,9 @@ MCInit ==
                              ListOK(b) /\ doc = D(f, b, 0, 0)
          [] Fam = "B" -> \E f \in Fmts : \E n \in 1..MaxCh : \E ch \in SeqN(Children(f, MaxAt), n) :
                              NTok(P(ch)) >= 1 /\ doc = D(f, <<P(ch)>>, 0, 0)
+         [] Fam = "L" -> \E f \in Fmts : \E n \in 1..MaxBlocks : \E b \in SeqN(ShapesL(f), n) : \E tail \in {0, 1} :
+                             /\ ListOK(b)
+                             /\ doc = D(f, IF tail = 1 THEN <<Plain>> \o b \o <<Plain>> ELSE b, 0, 0)
          [] Fam = "S" -> \E f \in Fmts : \E n \in 1..MaxBlocks : \E dcs \in SeqN(SheetDecls(f), n) :
                            \E last \in {-2, -1, 0} \cup (1..n) :
                              /\ SheetOK(f, ChainSheet(f, dcs, last))
